@@ -28,9 +28,9 @@ type Rule struct {
 	Floor     int        `json:"floor"`
 	Instances []Instance `json:"-"`
 	// counts for evidence
-	N         int `json:"instances"`
-	Violated  int `json:"violated"`
-	Undecided int `json:"undecided"`
+	N         int    `json:"instances"`
+	Violated  int    `json:"violated"`
+	Undecided int    `json:"undecided"`
 	Canary    string `json:"canary,omitempty"` // "fired" | "silent" | ""
 }
 
@@ -248,17 +248,17 @@ func (rp *Report) Finish() int {
 		}
 	}
 	cov := map[string]interface{}{
-		"explanation":         rp.Explanation + " NOT DECIDED: " + rp.NotDecided,
-		"evaluations":         evaluations,
-		"distinct_nontrivial": len(distinct),
-		"rule":                "one evaluation per (rule, construct) obligation found in /repo's current source; distinct = distinct rule|construct keys; an obligation is non-trivial because every rule has a hand-confirmed floor and a canary that must fire",
-		"samples":             samples,
-		"rules":               rp.Rules,
+		"explanation":            rp.Explanation + " NOT DECIDED: " + rp.NotDecided,
+		"evaluations":            evaluations,
+		"distinct_nontrivial":    len(distinct),
+		"rule":                   "one evaluation per (rule, construct) obligation found in /repo's current source; distinct = distinct rule|construct keys; an obligation is non-trivial because every rule has a hand-confirmed floor and a canary that must fire",
+		"samples":                samples,
+		"rules":                  rp.Rules,
 		"known_findings_matched": knownMatched,
-		"obligations":         obl,
-		"discharged":          dis,
-		"checker_cmd":         fmt.Sprintf("./bin/gdsa check %s --tier %s", rp.Prop, rp.Tier),
-		"trusted_base":        rp.Trusted,
+		"obligations":            obl,
+		"discharged":             dis,
+		"checker_cmd":            fmt.Sprintf("./bin/gdsa check %s --tier %s", rp.Prop, rp.Tier),
+		"trusted_base":           rp.Trusted,
 	}
 	for k, v := range rp.Extra {
 		cov[k] = v
